@@ -560,6 +560,9 @@ class FnTranslator:
         return '((%s)&G_%s)' % (s.em.ctype(ty), san(g))
 
     def gep(s, bt, base, idx):
+        if len(idx) == 1 and isinstance(bt, IntTy) and bt.bits == 64 and not re.fullmatch(r'\(\(uint\d+_t\)\d+ULL\)', idx[0][0]):
+            s.last_gep_struct = None
+            return 'VERIF_IDX64(%s, %s)' % (base, idx[0][0]), PtrTy(bt)      # overridable: raw indexing of a word array
         e = '%s[%s]' % (base, idx[0][0])
         t = bt
         first_struct = None
@@ -839,7 +842,9 @@ class FnTranslator:
                     out.append('__CPROVER_assert(%s < %d, "UB: shift amount in range");' % (bb, ty.bits))
                 if op in ('udiv', 'urem', 'sdiv', 'srem'):
                     out.append('__CPROVER_assert(%s != 0, "UB: division by zero");' % bb)
-                if op in sym:
+                if op in ('udiv', 'urem') and ty.bits == 64:
+                    setres(ty, 'VERIF_%s64(%s, %s)' % (op.upper(), a, bb))      # overridable: a unit may treat a division as uninterpreted
+                elif op in sym:
                     setres(ty, '(%s)(%s %s %s)' % (ct, a, sym[op], bb))
                 else:
                     sg = 'int%d_t' % ty.bits
@@ -1001,6 +1006,7 @@ static void* VERIF_new(uint64_t n) { void* p = malloc(n); __CPROVER_assume(p != 
 static void VERIF_delete(void* p) { free(p); }
 #endif
 static void VERIF_throw(void) { __CPROVER_assume(0); }
+void* VERIF_memcpy_witness(void* d, const void* s, uint64_t n);   /* a unit may supply the contract of a variable-length memcpy */
 #ifndef VERIF_memcpy_dyn
 #define VERIF_memcpy_dyn memcpy
 #endif
@@ -1010,6 +1016,14 @@ static void VERIF_throw(void) { __CPROVER_assume(0); }
 #ifndef VERIF_memset_dyn
 #define VERIF_memset_dyn memset
 #endif
+#ifndef VERIF_UDIV64
+#define VERIF_UDIV64(a, b) ((uint64_t)((a) / (b)))
+#define VERIF_UREM64(a, b) ((uint64_t)((a) % (b)))
+#endif
+#ifndef VERIF_IDX64
+#define VERIF_IDX64(base, i) (&(base)[i])
+#endif
+uint64_t VERIF_udiv_hook(uint64_t a, uint64_t b); uint64_t VERIF_urem_hook(uint64_t a, uint64_t b); uint64_t* VERIF_idx_hook(uint64_t* base, uint64_t i);
 '''
 
 def resolve_alias(em, m, spec):
